@@ -1,4 +1,352 @@
 package engine
 
-func runC02Loop(c *Ctx) {}
-func runC02Mat(c *Ctx)  {}
+import (
+	"fmt"
+	"go/token"
+	"strings"
+
+	"golang.org/x/tools/go/ssa"
+)
+
+// clauseProducers: functions that (transitively, through static calls) construct a clause
+// or call a rule function indirectly.
+func clauseProducers(p *Prog) map[*ssa.Function]bool {
+	direct := map[*ssa.Function]bool{}
+	for _, fn := range p.Funcs {
+		for _, b := range fn.Blocks {
+			for _, ins := range b.Instrs {
+				call, ok := ins.(ssa.CallInstruction)
+				if !ok {
+					continue
+				}
+				cc := call.Common()
+				n := calleeName(cc)
+				if n == "valid.GetJoinValidErrStr" || n == "valid.GetJoinFieldErr" {
+					direct[fn] = true
+				}
+				if !cc.IsInvoke() && staticCallee(cc) == nil {
+					if _, isB := cc.Value.(*ssa.Builtin); !isB && isCommonValidFn(cc.Value.Type()) {
+						direct[fn] = true
+					}
+				}
+			}
+		}
+	}
+	// transitive closure over static calls
+	for changed := true; changed; {
+		changed = false
+		for _, fn := range p.Funcs {
+			if direct[fn] {
+				continue
+			}
+			for _, b := range fn.Blocks {
+				for _, ins := range b.Instrs {
+					if call, ok := ins.(ssa.CallInstruction); ok {
+						if c := staticCallee(call.Common()); c != nil && direct[c] {
+							direct[fn] = true
+							changed = true
+						}
+					}
+				}
+			}
+		}
+	}
+	return direct
+}
+
+func validEntries(p *Prog) []*ssa.Function {
+	var out []*ssa.Function
+	for _, w := range findWalkers(p) {
+		if rn := recvNamed(w.Fn); rn != nil {
+			if m := p.Method("valid", rn.Obj().Name(), "Valid"); m != nil {
+				out = append(out, m)
+			}
+		}
+	}
+	return out
+}
+
+func runC02Loop(c *Ctx) {
+	p := c.P
+	c.Rule("C02-LOOP", "every loop on the validation path whose body can produce a clause (walker loops over fields, entries, elements, rule items, groups) leaves only through its header: no break, return, goto or panic in the body, so one failure never ends the walk", 9)
+	prod := clauseProducers(p)
+	// functions on the validation path, excluding what is only reachable through rule functions
+	inRule := map[*ssa.Function]bool{}
+	if reg, _, err := registryTable(p); err == nil {
+		for _, e := range reg {
+			if e.Fn != nil {
+				for f := range reachableFrom(e.Fn) {
+					inRule[f] = true
+				}
+			}
+		}
+	} else {
+		c.Unk("C02-LOOP", "-", "anchor", token.NoPos, err.Error())
+		return
+	}
+	entries := validEntries(p)
+	if len(entries) < 4 {
+		c.Unk("C02-LOOP", "-", "anchor", token.NoPos, fmt.Sprintf("expected 4 Valid entry points, found %d", len(entries)))
+	}
+	onPath := map[*ssa.Function]bool{}
+	for _, e := range entries {
+		for f := range reachableFrom(e) {
+			if !inRule[f] && f.Pkg != nil && Rel(f.Pkg.Pkg.Path()) == "valid" {
+				onPath[f] = true
+			}
+		}
+	}
+	// getError and group evaluation are reached from Valid already
+	var fns []*ssa.Function
+	for _, f := range p.Funcs {
+		if onPath[f] {
+			fns = append(fns, f)
+		}
+	}
+	for _, fn := range fns {
+		loops := naturalLoops(fn)
+		li := 0
+		for _, l := range loops {
+			// reporting loop?
+			reporting := false
+			for b := range l.Body {
+				for _, ins := range b.Instrs {
+					call, ok := ins.(ssa.CallInstruction)
+					if !ok {
+						continue
+					}
+					cc := call.Common()
+					if callee := staticCallee(cc); callee != nil && prod[callee] {
+						reporting = true
+					}
+					if n := calleeName(cc); n == "valid.GetJoinValidErrStr" || n == "valid.GetJoinFieldErr" {
+						reporting = true
+					}
+					if !cc.IsInvoke() && staticCallee(cc) == nil {
+						if _, isB := cc.Value.(*ssa.Builtin); !isB && isCommonValidFn(cc.Value.Type()) {
+							reporting = true
+						}
+					}
+				}
+			}
+			if !reporting {
+				continue
+			}
+			li++
+			c.Funcs[fnName(fn)] = true
+			c.Sites++
+			var bad []string
+			for _, e := range l.exitEdges() {
+				if e[0] != l.Header {
+					what := "leaves the loop"
+					if len(e[1].Succs) == 0 && len(e[1].Instrs) > 0 {
+						switch e[1].Instrs[len(e[1].Instrs)-1].(type) {
+						case *ssa.Return:
+							what = "returns"
+						case *ssa.Panic:
+							what = "panics"
+						}
+					}
+					bad = append(bad, fmt.Sprintf("control %s from inside the body at %s", what, p.Pos(firstPos(e[0]))))
+				}
+			}
+			pos := firstPos(l.Header)
+			disc := fmt.Sprintf("loop%d:%s", li, l.Header.Comment)
+			c.Check(len(bad) == 0, "C02-LOOP", fnName(fn), disc, pos, "exits only through its header", strings.Join(bad, "; "))
+		}
+	}
+}
+
+func firstPos(b *ssa.BasicBlock) token.Pos {
+	for _, ins := range b.Instrs {
+		if ins.Pos().IsValid() {
+			return ins.Pos()
+		}
+	}
+	for _, ins := range b.Instrs {
+		if p := instrPos(ins); p.IsValid() {
+			return p
+		}
+	}
+	return b.Parent().Pos()
+}
+
+// runC02Mat: error materialisation in every getError.
+func runC02Mat(c *Ctx) {
+	p := c.P
+	c.Rule("C02-MAT", "each getError: cross-field groups are evaluated before the emptiness test; nil is returned only when the buffer is empty; otherwise errors.New(strings.TrimSuffix(buffer text, separator)); every Valid path that walked ends in getError", 8)
+	wl := runWalkLayers(p)
+	groupTypes := map[string]bool{}
+	for _, we := range walkEvents(wl, "group") {
+		if rn := recvNamed(we.Run.Fn); rn != nil {
+			groupTypes[rn.Obj().Name()] = true
+		}
+	}
+	for _, fn := range p.Funcs {
+		if fn.Name() != "getError" || fn.Signature.Recv() == nil || Rel(fn.Pkg.Pkg.Path()) != "valid" {
+			continue
+		}
+		c.Funcs[fnName(fn)] = true
+		rn := recvNamed(fn)
+		var lenCall, groupCall *ssa.Call
+		for _, b := range fn.Blocks {
+			for _, ins := range b.Instrs {
+				if call, ok := ins.(*ssa.Call); ok {
+					switch calleeName(&call.Call) {
+					case "(*strings.Builder).Len":
+						lenCall = call
+					case "(*valid.validCommon).valid":
+						groupCall = call
+					}
+				}
+			}
+		}
+		name := fnName(fn)
+		if lenCall == nil {
+			c.Unk("C02-MAT", name, "empty-test", fn.Pos(), "no emptiness test of the error buffer found")
+			continue
+		}
+		if rn != nil && groupTypes[rn.Obj().Name()] {
+			ok := groupCall != nil && (groupCall.Block().Dominates(lenCall.Block()) && (groupCall.Block() != lenCall.Block() || indexIn(groupCall) < indexIn(lenCall)))
+			c.Check(ok, "C02-MAT", name, "groups-first", lenCall.Pos(), "group evaluation dominates the emptiness test", "the walker registers either/botheq members but getError does not evaluate the groups before testing the buffer for emptiness: group clauses are lost")
+		}
+		// returns
+		for _, b := range fn.Blocks {
+			if !reachableBlocks(fn)[b] {
+				continue
+			}
+			ret, ok := b.Instrs[len(b.Instrs)-1].(*ssa.Return)
+			if !ok || b == fn.Recover {
+				continue
+			}
+			c.Sites++
+			v := ret.Results[0]
+			// named result spilled by defer: look through the load of the result cell
+			v = throughResultCell(v, b)
+			disc := fmt.Sprintf("return@%s", b.Comment)
+			if isNilConst(v) {
+				ok := edgeImplies(lenCall, b, true)
+				c.Check(ok, "C02-MAT", name, disc+":nil", ret.Pos(), "nil returned only on the 'buffer is empty' edge", "nil is returned on a path where the buffer may hold clauses")
+				continue
+			}
+			okShape := false
+			detail := "returned error is not errors.New(strings.TrimSuffix(buffer.String(), separator))"
+			if mi, isMI := v.(*ssa.MakeInterface); isMI {
+				v = mi.X
+			}
+			if call, isCall := v.(*ssa.Call); isCall && calleeName(&call.Call) == "errors.New" {
+				if ts, ok := call.Call.Args[0].(*ssa.Call); ok && calleeName(&ts.Call) == "strings.TrimSuffix" {
+					s0, isS := ts.Call.Args[0].(*ssa.Call)
+					sep, isSep := ts.Call.Args[1].(*ssa.UnOp)
+					if isS && calleeName(&s0.Call) == "(*strings.Builder).String" && isSep {
+						if g, ok := sep.X.(*ssa.Global); ok && g.Name() == "ErrEndFlag" {
+							okShape = true
+							detail = "errors.New(strings.TrimSuffix(buf.String(), ErrEndFlag))"
+						}
+					}
+				}
+			}
+			c.Check(okShape && edgeImplies(lenCall, b, false), "C02-MAT", name, disc+":error", ret.Pos(), detail, detail+" or the error is returned on the 'buffer is empty' edge")
+		}
+	}
+	// every Valid trace that called a walker ends by returning getError's result
+	for _, r := range wl.Runs {
+		if r.Fn.Name() != "Valid" {
+			continue
+		}
+		bad, n := 0, 0
+		for _, t := range r.Traces {
+			if t.Cut != "" || t.Panic != "" || t.Converged {
+				continue
+			}
+			walked, last := false, ""
+			for _, e := range t.Events {
+				if e.Kind == "call" {
+					nm, _ := isCstStr(e.Args[0])
+					if strings.HasSuffix(nm, ".validate") {
+						walked = true
+					}
+					last = nm
+				}
+			}
+			if !walked {
+				continue
+			}
+			n++
+			if !strings.HasSuffix(last, ".getError") || t.Ret == nil || !strings.Contains(keyOf(t.Ret), "getError") {
+				bad++
+			}
+		}
+		c.Check(bad == 0 && n > 0, "C02-MAT", fnName(r.Fn), "ends-in-getError", r.Fn.Pos(), fmt.Sprintf("%d walking paths all return getError()", n), fmt.Sprintf("%d of %d walking paths do not return the materialised error", bad, n))
+	}
+}
+
+func indexIn(ins ssa.Instruction) int {
+	for i, x := range ins.Block().Instrs {
+		if x == ins {
+			return i
+		}
+	}
+	return -1
+}
+
+// throughResultCell: `return *t0` where t0 is the spilled result cell: find the unique
+// store to t0 in the same block.
+func throughResultCell(v ssa.Value, b *ssa.BasicBlock) ssa.Value {
+	u, ok := v.(*ssa.UnOp)
+	if !ok || u.Op != token.MUL {
+		return v
+	}
+	al, ok := u.X.(*ssa.Alloc)
+	if !ok {
+		return v
+	}
+	var last ssa.Value
+	for _, ins := range b.Instrs {
+		if st, ok := ins.(*ssa.Store); ok && st.Addr == al {
+			last = st.Val
+		}
+	}
+	if last != nil {
+		return last
+	}
+	return v
+}
+
+// edgeImplies: block b is only reachable through the edge on which `lenCall == 0` is
+// `want` (true: buffer empty).
+func edgeImplies(lenCall *ssa.Call, b *ssa.BasicBlock, want bool) bool {
+	for _, r := range refs(lenCall) {
+		bin, ok := r.(*ssa.BinOp)
+		if !ok {
+			continue
+		}
+		if k, ok := constInt(bin.Y); !ok || k != 0 {
+			continue
+		}
+		for _, r2 := range refs(bin) {
+			iff, ok := r2.(*ssa.If)
+			if !ok {
+				continue
+			}
+			blk := iff.Block()
+			var emptySucc, nonEmptySucc *ssa.BasicBlock
+			switch bin.Op {
+			case token.EQL:
+				emptySucc, nonEmptySucc = blk.Succs[0], blk.Succs[1]
+			case token.NEQ, token.GTR:
+				emptySucc, nonEmptySucc = blk.Succs[1], blk.Succs[0]
+			default:
+				continue
+			}
+			s := nonEmptySucc
+			if want {
+				s = emptySucc
+			}
+			if len(s.Preds) == 1 && s.Dominates(b) {
+				return true
+			}
+		}
+	}
+	return false
+}
